@@ -3,6 +3,7 @@ use vstd::prelude::*;
 use std::ops;
 use vstd::std_specs::ops::{AddSpec, MulSpec};
 verus! {
+//%% include prelude/semiring.rs
 //%% include inc/poly.rs
 //%% include prelude/polylaws.rs
 } // verus!
